@@ -53,6 +53,18 @@ CHECKS["C27"] = ("comp-family", "TLA+ model checking: CompNest.tla enumerates ne
    "every tree of <= 5 items (core modules, type definitions, custom sections, nested components) up to nesting depth 4: the output must validate, decode to the same item tree in the same order at every depth, and encode idempotently",
    "DESIGN.md 6 C27")
 
+RT_TECH = ("TLA+ model checking: MC_Rt.tla enumerates every value type x position and every subset of section features and checks the "
+           "Impl-shaped DataType conversion against the Ideal (ValTypes.tla); each case and every module of the fixture/.wast corpora is "
+           "round-tripped by the real parse/encode (replay); RtTrace.tla validates the recorded results")
+CHECKS["C01"] = ("rt-family", RT_TECH, "input validates => parse returns Ok, encode does not panic, output validates; over 4.7k type x position modules, 4096 section-shape modules and ~800 corpus modules/components", "DESIGN.md 6 C01")
+CHECKS["C02"] = ("rt-family", RT_TECH, "the output prints (independent printer: abstracts section framing and name-section layout, shows names) to exactly the text of the input; same case space as C01 incl. NaN-payload / v128 / i64-extreme constants", "DESIGN.md 6 C02")
+CHECKS["C03"] = ("parse-family", "TLA+ model checking: ParseRobust.tla is an Impl-shaped model of the payload dispatch of parse_internal (every indexing/unwrap site a part), "
+   "MC_Parse.tla enumerates part combinations and checks outcome # panic; each is concretised to a binary and parsed by Module::parse and "
+   "Component::parse (replay, outcome class compared with the model = drift check); truncations and seeded byte substitutions of those binaries "
+   "and of the corpora are parsed too; ParseTrace.tla validates the outcomes",
+   "no panic on: all combinations of <= 2 (quick) / 3 (thorough) malformed-or-unusual parts; every truncation at +-1 of every section boundary and seeded single-byte substitutions of ~2k base binaries (85k quick / 600k thorough parses per API)",
+   "DESIGN.md 6 C03, 7")
+
 checks = []
 for p in props:
     if p in CHECKS:
@@ -84,6 +96,10 @@ m = {"version": 1,
          "kind_free_text": "TLC (MC_Lower.tla generator) + seeded random generator -> real injection APIs + encode -> TLC as execution engine (LowerTrace.tla over Exec.tla / ProbeIdeal.tla)"},
         {"name": "iter-family", "path": "lib/fam_iter.py", "serves_properties": ["C25", "C26"],
          "kind_free_text": "TLC (MC_Iter.tla over IterIdeal.tla) -> real ModuleIterator/ComponentIterator -> TLC trace validation (IterTrace.tla)"},
+        {"name": "rt-family", "path": "lib/fam_rt.py", "serves_properties": ["C01", "C02", "C03", "C05"],
+         "kind_free_text": "TLC (MC_Rt.tla over ValTypes.tla) + fixture corpora -> real parse/encode -> TLC trace validation (RtTrace.tla)"},
+        {"name": "parse-family", "path": "lib/fam_parse.py", "serves_properties": ["C03"],
+         "kind_free_text": "TLC (MC_Parse.tla over ParseRobust.tla) -> raw-section binaries + seeded truncations/substitutions -> Module::parse/Component::parse -> TLC trace validation (ParseTrace.tla)"},
         {"name": "comp-family", "path": "lib/fam_comp.py", "serves_properties": ["C27"],
          "kind_free_text": "TLC (CompNest.tla) -> wasm-encoder built nested components -> Component::parse/encode -> TLC trace validation (CompTrace.tla)"}],
      "checks": checks,
